@@ -60,11 +60,29 @@
 (* negative control NonAtomicQread (self.db bound before the second load):  *)
 (* MC_Debtags_qread.cfg -> Inverse violated.                                *)
 (*                                                                         *)
+(* Re-reading: read() / qread() on an object that derivations were taken   *)
+(* from replaces its content; derivations taken afterwards are derivations *)
+(* of the NEW content.  rv models a reverse view remembered by the object   *)
+(* (it shares the two dictionaries until read() binds new ones); negative   *)
+(* control ReverseViewCached (reverse() hands back the remembered view,     *)
+(* read() does not forget it): MC_Debtags_rview.cfg -> Refines violated     *)
+(* (Reverse, Read, Reverse).                                                *)
+(* Deprecated camelCase aliases (packageCount, tagsOfPackage, filterTags,   *)
+(* reverseCopy ...) are the SAME actions and queries as the snake_case      *)
+(* methods.  ab models which object an alias is bound to; negative control  *)
+(* AliasBoundToFirstObject (the alias stays bound to the first DB object    *)
+(* that used it): MC_Debtags_alias.cfg -> AliasQueriesAgree violated.       *)
+(*                                                                         *)
+(* Names are opaque sequences of code points: nothing is normalised, case-  *)
+(* folded or length-limited; the binding concretizes them with non-NFC      *)
+(* twins, case hazards, non-BMP characters and lengths up to 4 KiB, and     *)
+(* blows single model names up to 10 000 packages / 1 000 tags a package.   *)
+(*                                                                         *)
 (* Configurations: MC_Debtags.cfg (closed, 3 packages x 3 tags),           *)
 (* MC_Debtags_lts.cfg (same + EDGE/STATE emission), _lts_small (2 packages *)
 (* x 3 tags, the LTS replayed by the quick tier), _big (4 packages),       *)
 (* _src (2 packages x 3 tags with the retained source, SrcSteps = 2),      *)
-(* _dev, _shallow, _nonatomic, _qread (negative controls).                 *)
+(* _dev, _shallow, _nonatomic, _qread, _rview, _alias (negative controls).  *)
 (*                                                                         *)
 (* Domain (DESIGN D3 / section 5 C20): inserts use fresh package names;    *)
 (* read() gets each package on one line only; facet_collection is applied  *)
@@ -87,6 +105,8 @@ CONSTANTS PK,          \* package names offered by the model configuration
           InsertNewTagStoresChars,   \* the named deviation (BOOLEAN)
           NonAtomicRead,     \* negative control: read() binds self.db first, self.rdb after the loop
           NonAtomicQread,    \* negative control: qread() binds self.db before loading the second pickle
+          ReverseViewCached,       \* negative control: reverse() returns a remembered view that read() does not drop
+          AliasBoundToFirstObject, \* negative control: a deprecated alias stays bound to the first object that used it
           ShallowCopy, \* negative control: copy()/reverse_copy() share the set objects with the source
           SrcSteps,    \* the source of a copy stays observed for this many further calls (0: never)
           Emit         \* TRUE: print EDGE / STATE lines (the complete LTS of the reference)
@@ -95,11 +115,13 @@ VARIABLES P, T, R,     \* reference relation
           db, rdb,     \* implementation: the two dictionaries
           sabs,        \* reference relation of the retained source of the last copy
           src,         \* the retained source object [live, age, db, rdb]
-          al           \* [db, rdb]: for every set of the current object the source set it IS (or NoCell)
+          al,          \* [db, rdb]: for every set of the current object the source set it IS (or NoCell)
+          rv,          \* reverse view remembered by the current object [has, stale, db, rdb]
+          ab           \* the object a deprecated alias is bound to [set, cur, db, rdb]
 
 avars == <<P, T, R>>
 ivars == <<db, rdb>>
-vars  == <<P, T, R, db, rdb, sabs, src, al>>
+vars  == <<P, T, R, db, rdb, sabs, src, al, rv, ab>>
 
 ----------------------------------------------------------------------------
 \* names
@@ -263,8 +285,11 @@ Edge(op, a, s, lines) ==
 
 Dev == InsertNewTagStoresChars
 
+NoView  == [has |-> FALSE, stale |-> FALSE, db |-> NoDict, rdb |-> NoDict]
+NoBound == [set |-> FALSE, cur |-> FALSE, db |-> NoDict, rdb |-> NoDict]
+
 Init == /\ P = {} /\ T = {} /\ R = {} /\ db = NoDict /\ rdb = NoDict
-        /\ sabs = AEmpty /\ src = NoSrc /\ al = NoAlias(IEmpty)
+        /\ sabs = AEmpty /\ src = NoSrc /\ al = NoAlias(IEmpty) /\ rv = NoView /\ ab = NoBound
 
 \* a call that is not a copy: s = the source after the effects of the call, a2 = the identities of
 \* the sets of the new current object st2; the source is released SrcSteps calls after the copy
@@ -278,28 +303,59 @@ Retain(st, a2, st2) ==
    THEN src' = [live |-> TRUE, age |-> 0, db |-> st.db, rdb |-> st.rdb] /\ sabs' = Abs /\ al' = a2
    ELSE src' = NoSrc /\ al' = NoAlias(st2) /\ sabs' = AEmpty
 
+\* ---- object identity for the two negative controls (both variables stay constant when the
+\* controls are off).  Deprecated aliases are used on the current object after every call.
+\* a call on the SAME object; how = "read": self.db / self.rdb are bound to new dictionaries (a
+\* remembered reverse view keeps the old ones), "qread": the same and the view is forgotten,
+\* "mutate": the dictionaries are changed in place (a remembered view shares them)
+SameObject(how) ==
+   /\ ab' = IF AliasBoundToFirstObject /\ ~ab.set THEN [NoBound EXCEPT !.set = TRUE, !.cur = TRUE] ELSE ab
+   /\ rv' = IF how = "qread" THEN NoView
+            ELSE IF how = "read" /\ rv.has /\ ~rv.stale THEN [has |-> TRUE, stale |-> TRUE, db |-> rdb, rdb |-> db]
+            ELSE rv
+\* the current object is replaced by a new one which remembers the view `view`
+NewObject(view) ==
+   /\ ab' = IF ~AliasBoundToFirstObject THEN NoBound
+            ELSE IF ~ab.set THEN [NoBound EXCEPT !.set = TRUE, !.cur = TRUE]
+            ELSE IF ab.cur THEN [set |-> TRUE, cur |-> FALSE, db |-> db, rdb |-> rdb]     \* stays with the old object
+            ELSE ab
+   /\ rv' = view
+\* the object the alias methods answer for
+AliasTarget == IF ab.set /\ ~ab.cur THEN [db |-> ab.db, rdb |-> ab.rdb] ELSE [db |-> db, rdb |-> rdb]
+
 \* An EDGE is printed once per reference transition; where several methods of DB implement the
 \* same reference transition (`variants`), each of them is a disjunct of the implementation
 \* layer, so Refines is checked for every one of them and the harness may call any of them.
+\* read(lines, tag_filter) / qread(pickle of that collection) -- also over a non-empty object (re-read)
 Read(lines, drop) == /\ SetAbs(ARead(lines, drop))
                      /\ Edge("read", <<>>, drop, lines)
                      /\ LET st2 == IRead(lines, drop) IN SetImpl(st2) /\ KeepSrc(src, NoAlias(st2), st2)
+                     /\ (SameObject("read") \/ (drop = {} /\ SameObject("qread")))
 Insert(p, S)      == /\ p \notin P
                      /\ SetAbs(AInsert(Abs, p, S))
                      /\ Edge("insert", p, S, <<>>)
                      /\ LET st2 == IInsert(Impl, p, S, Dev)
                         IN SetImpl(st2) /\ KeepSrc(SrcInsert(src, al, Impl, p, S), LInsert(al, Impl, p, S), st2)
-\* reverse() / reverse_copy()
+                     /\ SameObject("mutate")
+\* reverse() / reverse_copy().  reverse() is a view on the same two dictionaries; with
+\* ReverseViewCached it is remembered (and remembers its origin), and a stale one is handed back
 Reverse           == /\ SetAbs(AReverse(Abs))
                      /\ Edge("reverse", <<>>, {}, <<>>)
-                     /\ \/ SetImpl(IReverse(Impl)) /\ KeepSrc(src, LReverse(al), IReverse(Impl))
-                        \/ SetImpl(IReverseCopy(Impl))
+                     /\ \/ IF ReverseViewCached /\ rv.has /\ rv.stale
+                           THEN LET st2 == [db |-> rv.db, rdb |-> rv.rdb]
+                                IN /\ SetImpl(st2) /\ KeepSrc(src, NoAlias(st2), st2)
+                                   /\ NewObject([has |-> TRUE, stale |-> TRUE, db |-> db, rdb |-> rdb])
+                           ELSE /\ SetImpl(IReverse(Impl)) /\ KeepSrc(src, LReverse(al), IReverse(Impl))
+                                /\ NewObject(IF ReverseViewCached THEN [NoView EXCEPT !.has = TRUE] ELSE NoView)
+                        \/ /\ SetImpl(IReverseCopy(Impl))
                            /\ Retain(Impl, LReverseCopy(Impl, ShallowCopy), IReverseCopy(Impl))
+                           /\ NewObject(NoView)
 \* copy() / qwrite() + qread() into a new DB (never shares)
 Copy              == /\ SetAbs(Abs)
                      /\ Edge("copy", <<>>, {}, <<>>)
                      /\ SetImpl(ICopy(Impl))
                      /\ (Retain(Impl, LCopy(Impl, ShallowCopy), ICopy(Impl)) \/ Retain(Impl, NoAlias(Impl), ICopy(Impl)))
+                     /\ NewObject(NoView)
 \* choose_packages(S \cup X) with X absent names / choose_packages_copy(S) /
 \* filter_packages(_copy)(in S) / filter_packages_tags(_copy)(item key in S),   S \subseteq P
 RestrictPackages(S, X) ==
@@ -310,11 +366,13 @@ RestrictPackages(S, X) ==
                                     IFilterP(Impl, S), IFilterPT(Impl, S)} :
                            /\ SetImpl(st2)
                            /\ \E share \in BOOLEAN : KeepSrc(src, LRestrictDb(al, st2, share), st2)
+                     /\ NewObject(NoView)
 \* filter_tags(_copy)(in S)
 FilterTags(S)     == /\ SetAbs(ARestrictT(Abs, S))
                      /\ Edge("filter_t", <<>>, S, <<>>)
                      /\ LET st2 == IFilterT(Impl, S)
                         IN SetImpl(st2) /\ \E share \in BOOLEAN : KeepSrc(src, LRestrictRdb(al, st2, share), st2)
+                     /\ NewObject(NoView)
 \* the reference outcome of a failed read: the exception propagates and the object is one of the
 \* allowed consistent collections; if the implementation leaves anything else the reference
 \* stays where it was and Refines / Inverse fail
@@ -329,6 +387,7 @@ ReadFails(lines, drop, k) ==
       /\ EdgeF("read_fails", lines, k, allowed)
       /\ SetImpl(st2)
       /\ KeepSrc(src, IF st2 = Impl THEN al ELSE [db |-> NoAlias(st2).db, rdb |-> al.rdb], st2)
+      /\ SameObject("mutate")
 QReadFails(lines, stage) ==
    LET new     == IRead(lines, {})
        st2     == IQReadFails(Impl, new, stage, NonAtomicQread)
@@ -337,11 +396,13 @@ QReadFails(lines, stage) ==
       /\ EdgeF("qread_fails", lines, stage, allowed)
       /\ SetImpl(st2)
       /\ KeepSrc(src, IF st2 = Impl THEN al ELSE [db |-> NoAlias(st2).db, rdb |-> al.rdb], st2)
+      /\ SameObject("mutate")
 FacetCollection   == /\ AFacetDomain(Abs)
                      /\ SetAbs(AFacet(Abs))
                      /\ Edge("facet", <<>>, {}, <<>>)
                      /\ \E order \in (IF Dev THEN SetToSeqs(DOMAIN db) ELSE {SetToSeq(DOMAIN db)}) :
                            LET st2 == IFacet(Impl, order, Dev) IN SetImpl(st2) /\ KeepSrc(src, NoAlias(st2), st2)
+                     /\ NewObject(NoView)
 
 \* ---- bounded choice of arguments for the closed configurations
 FC        == {FacetOf(t) : t \in FT}                      \* the facets of the model tags
@@ -384,6 +445,13 @@ QueriesAgree == /\ IPkgCount(Impl) = APkgCount(Abs) /\ ITagCount(Impl) = ATagCou
                                        /\ ICard(Impl, n) = ACard(Abs, n)
                                        /\ IHasPkg(Impl, n) = AHasPkg(Abs, n)
                                        /\ IHasTag(Impl, n) = AHasTag(Abs, n)
+\* the deprecated aliases answer for the object they are called on
+AliasQueriesAgree ==
+   /\ IPkgCount(AliasTarget) = APkgCount(Abs) /\ ITagCount(AliasTarget) = ATagCount(Abs)
+   /\ \A n \in AllNames : /\ ITagsOf(AliasTarget, n) = ATagsOf(Abs, n)
+                          /\ IPkgsOf(AliasTarget, n) = APkgsOf(Abs, n)
+                          /\ IHasPkg(AliasTarget, n) = AHasPkg(Abs, n)
+                          /\ IHasTag(AliasTarget, n) = AHasTag(Abs, n)
 \* the retained source of a copy is untouched by everything done to the copy and its derivations
 SourceInverse == src.live => InverseOf(src)
 SourceRefines == src.live => (AbsOf(src) = sabs /\ InverseOf(src))
